@@ -2,7 +2,864 @@
 
 package http2_test
 
-import "golang.org/x/net/internal/zzverif/vx"
+// Client parts of C10 (inbound flow-control credit is never leaked) and C11
+// (the advertised receive windows are enforced) on the h2cli harness
+// (c09cli_common_test.go). The harness is a server that sends responses and
+// also the application (Read / Close of response bodies, request cancel).
+//
+// Monitor = the server's view of the client's receive windows (RFC 7540
+// §6.9): advertised initial value, minus the flow-controlled length of every
+// DATA frame sent, plus every WINDOW_UPDATE received.
 
-// placeholder until the client harness exists
-func c10cliRunParts(c *vx.Ctx) {}
+import (
+	"bytes"
+	"fmt"
+	"io"
+	"testing"
+	"testing/synctest"
+
+	. "golang.org/x/net/http2"
+	"golang.org/x/net/internal/zzverif/vx"
+)
+
+// ---------------------------------------------------------------------------
+// Monitor
+
+type c10cStream struct {
+	id        uint32
+	view      int64
+	respSent  bool
+	respEnd   bool // we sent END_STREAM
+	cl        int64
+	sent      int // payload bytes sent (pattern offset)
+	accepted  int // payload bytes sent in-window while the stream accepted DATA
+	regular   bool
+	srvRST    bool // we (the server) reset it
+	cliRST    bool // the client reset it
+	cliRSTCode ErrCode
+	cancelled bool
+	excess    bool
+	overCL    bool
+	irregular bool
+}
+
+// srvOpen: the server may legitimately send DATA.
+func (s *c10cStream) srvOpen() bool {
+	return s.respSent && !s.respEnd && !s.srvRST && !s.cliRST
+}
+
+type c10cMon struct {
+	cfgConn, cfgStr int64
+	connView        int64
+	streams         map[uint32]*c10cStream
+	goaway          bool
+	goawayCode      ErrCode
+	lastKind        string
+	excessConn      bool
+}
+
+// ---------------------------------------------------------------------------
+// Predictive model (pruning only, approximate).
+
+type c10cmStream struct {
+	opened   bool
+	hasBody  bool // request with an open request body (stream stays registered after END_STREAM)
+	resp     bool
+	srvOpen  bool
+	dead     bool // reset/cancelled (either side)
+	app      int  // 0 in RoundTrip, 1 idle with response, 2 blocked in Read, 3 no response (failed)
+	buffered int64
+	closed   bool
+	pipeErr  bool
+	cl, recv int64
+	view     int64
+	wantRead int64
+}
+
+type c10cModel struct {
+	cfgConn, cfgStr int64
+	connView        int64
+	terminal        bool
+	s               [2]c10cmStream
+}
+
+func c10cCfgWins(cfg c09cliCfg) (conn, str int64) {
+	conn, str = 1<<30, 4<<20
+	if cfg.ConnWin >= 65535 {
+		conn = int64(cfg.ConnWin)
+	}
+	if cfg.StrWin >= 1 {
+		str = int64(cfg.StrWin)
+	}
+	return conn + 65535, str
+}
+
+func c10cNewModel(cfg c09cliCfg) *c10cModel {
+	m := &c10cModel{}
+	m.cfgConn, m.cfgStr = c10cCfgWins(cfg)
+	m.connView = m.cfgConn
+	return m
+}
+
+func (m *c10cModel) wake(s *c10cmStream) {
+	if s.app != 2 {
+		return
+	}
+	if s.buffered > 0 {
+		k := min(s.wantRead, s.buffered)
+		s.buffered -= k
+		m.refund(s, k)
+		s.app = 1
+	} else if s.pipeErr {
+		s.app = 1
+	}
+}
+
+// refund approximates the window replenishment (ignores batching: views are
+// only used to decide whether a DATA event fits, and an event that does not
+// fit at run time is skipped).
+func (m *c10cModel) refund(s *c10cmStream, k int64) {
+	m.connView += k
+	if s.srvOpen {
+		s.view += k
+	}
+}
+
+func (m *c10cModel) kill(s *c10cmStream) {
+	s.dead, s.srvOpen, s.pipeErr = true, false, true
+	if s.app == 0 {
+		s.app = 3
+	}
+	m.wake(s)
+}
+
+func (m *c10cModel) enabled(ev c08srvEv, enforce bool) bool {
+	if m.terminal {
+		return false
+	}
+	idx := func() *c10cmStream { return &m.s[c08Idx(ev.arg(0))] }
+	switch ev.K {
+	case "REQ":
+		return !m.s[1].opened
+	case "RESP":
+		s := idx()
+		return s.opened && !s.resp && !s.dead
+	case "D":
+		s := idx()
+		if !s.opened {
+			return false
+		}
+		fl := c10FlowLen(ev.arg(1), ev.arg(2))
+		if fl > m.connView {
+			return enforce && s.srvOpen
+		}
+		if s.srvOpen {
+			return fl <= s.view || enforce
+		}
+		return ev.arg(1) == 4 && ev.arg(2) == 0 && ev.arg(3) == 0
+	case "DR":
+		s := idx()
+		if !s.opened || !s.srvOpen {
+			return false
+		}
+		n := c10RelLen(s.view, m.connView, true, ev.arg(1))
+		return n >= 0 && n <= 16384
+	case "R":
+		s := idx()
+		return s.app == 1 && !s.closed
+	case "C":
+		s := idx()
+		return s.app == 1 && !s.closed
+	case "CANCEL":
+		s := idx()
+		return s.opened && !s.dead && !s.closed
+	case "RST":
+		s := idx()
+		return s.opened && !s.dead && !(s.resp && !s.srvOpen && !s.hasBody)
+	}
+	return false
+}
+
+func (m *c10cModel) apply(ev c08srvEv) {
+	idx := func() *c10cmStream { return &m.s[c08Idx(ev.arg(0))] }
+	switch ev.K {
+	case "REQ":
+		i := 0
+		if m.s[0].opened {
+			i = 1
+		}
+		m.s[i] = c10cmStream{opened: true, hasBody: ev.arg(0) == 1, view: m.cfgStr}
+	case "RESP":
+		s := idx()
+		s.resp, s.cl = true, ev.arg(1)
+		if s.app == 0 {
+			s.app = 1
+		}
+		if ev.arg(2) != 0 {
+			s.pipeErr = true
+		} else {
+			s.srvOpen = true
+		}
+	case "D", "DR":
+		s := idx()
+		ln, pad, end := ev.arg(1), ev.arg(2), ev.arg(3) != 0
+		if ev.K == "DR" {
+			ln, pad, end = c10RelLen(s.view, m.connView, s.srvOpen, ev.arg(1)), 0, ev.arg(2) != 0
+		}
+		fl := c10FlowLen(ln, pad)
+		if fl > m.connView || (s.srvOpen && fl > s.view) {
+			m.terminal = true
+			return
+		}
+		if !s.srvOpen {
+			// DATA before HEADERS / after END_STREAM / on a dead stream: discarded
+			if !s.dead && (!s.resp || s.hasBody) {
+				m.kill(s) // still registered: the client resets the stream
+			}
+			return
+		}
+		m.connView -= fl
+		s.view -= fl
+		m.refund(s, fl-ln)
+		if s.closed {
+			m.refund(s, ln)
+		} else {
+			s.buffered += ln
+			s.recv += ln
+		}
+		if end {
+			s.srvOpen = false
+			s.pipeErr = true
+		}
+		m.wake(s)
+	case "R":
+		s := idx()
+		if s.buffered > 0 {
+			k := min(ev.arg(1), s.buffered)
+			s.buffered -= k
+			m.refund(s, k)
+			if s.cl >= 0 && s.recv > s.cl {
+				m.kill(s) // truncated: the client aborts the stream
+			}
+		} else if !s.pipeErr {
+			s.app = 2
+			s.wantRead = ev.arg(1)
+		}
+	case "C":
+		s := idx()
+		s.closed = true
+		m.connView += s.buffered
+		s.buffered = 0
+		m.kill(s)
+	case "CANCEL", "RST":
+		m.kill(idx())
+	}
+}
+
+func (m *c10cModel) clone() *c10cModel { c := *m; return &c }
+
+func c10cGen(cfg c09cliCfg, seed []string, alpha []c08srvEv, maxDepth int, enforce bool, onDepth func(int), yield func(c09cliCase) bool) bool {
+	base := c10cNewModel(cfg)
+	for _, s := range seed {
+		ev, err := c08srvParse(s)
+		if err != nil {
+			panic(err)
+		}
+		base.apply(ev)
+	}
+	for depth := 1; depth <= maxDepth; depth++ {
+		path := append([]string(nil), seed...)
+		var rec func(m *c10cModel, d int) bool
+		rec = func(m *c10cModel, d int) bool {
+			if d == depth {
+				return yield(c09cliCase{Cfg: cfg, SeedLen: len(seed), Evs: append([]string(nil), path...)})
+			}
+			for _, ev := range alpha {
+				if !m.enabled(ev, enforce) {
+					continue
+				}
+				m2 := m.clone()
+				m2.apply(ev)
+				path = append(path, c08EvString(ev))
+				ok := rec(m2, d+1)
+				path = path[:len(path)-1]
+				if !ok {
+					return false
+				}
+			}
+			return true
+		}
+		if !rec(base, 0) {
+			return false
+		}
+		if onDepth != nil {
+			onDepth(depth)
+		}
+	}
+	return true
+}
+
+// ---------------------------------------------------------------------------
+// Runner
+
+func c10cliRunCase(w *vx.W, t testing.TB, cs c09cliCase, mode c10sMode) (res c10sResult, harnessErr string) {
+	res.refundPaths = map[string]bool{}
+	env := c09cliNew(t, cs.Cfg)
+	defer func() {
+		env.teardown()
+		if harnessErr == "" {
+			harnessErr = env.harnessErr
+		}
+	}()
+	P := mode.id + "/cli/"
+	mon := &c10cMon{connView: 65535, streams: map[uint32]*c10cStream{}, lastKind: "preface"}
+	mon.cfgConn, mon.cfgStr = c10cCfgWins(cs.Cfg)
+
+	onFrame := func(f c08srvFrame, ctx string) {
+		switch f.Type {
+		case FrameHeaders:
+			if mon.streams[f.Stream] == nil {
+				mon.streams[f.Stream] = &c10cStream{id: f.Stream, view: mon.cfgStr, cl: -1, regular: true}
+			}
+		case FrameWindowUpdate:
+			res.wuSeen++
+			if f.Stream == 0 {
+				mon.connView += int64(f.Inc)
+				if mode.leak && mon.connView > c08MaxWin {
+					w.Failf(P+"window-update/conn-window-above-2^31-1", "%s: %v raises the connection receive window to %d", ctx, f, mon.connView)
+				} else if mode.leak && mon.connView > mon.cfgConn {
+					w.Failf(P+"window-update/conn-window-above-configured/after-"+mon.lastKind, "%s: %v raises the server's view of the connection receive window to %d > configured %d", ctx, f, mon.connView, mon.cfgConn)
+				}
+			} else if s := mon.streams[f.Stream]; s != nil {
+				s.view += int64(f.Inc)
+				if mode.leak && s.view > mon.cfgStr {
+					w.Failf(P+"window-update/stream-window-above-configured/after-"+mon.lastKind, "%s: %v raises the server's view of the stream receive window to %d > configured %d", ctx, f, s.view, mon.cfgStr)
+				}
+			}
+		case FrameRSTStream:
+			if s := mon.streams[f.Stream]; s != nil {
+				s.cliRST, s.cliRSTCode = true, f.Code
+			}
+			if f.Code == ErrCodeFlowControl {
+				res.fcErrSeen = true
+			}
+		case FrameGoAway:
+			mon.goaway, mon.goawayCode = true, f.Code
+			if f.Code == ErrCodeFlowControl {
+				res.fcErrSeen = true
+			}
+		case FramePing:
+			// RST_STREAM may be accompanied by a PING; answering it is not needed here
+		}
+	}
+	step := func(ctx string) {
+		synctest.Wait()
+		for _, f := range env.drain() {
+			onFrame(f, ctx)
+		}
+		if env.wireErr != "" {
+			w.Failf(P+"wire/unparseable-client-output", "%s: reading the client's output failed: %s", ctx, env.wireErr)
+		}
+	}
+	step("preface")
+	env.wr(env.tc.fr.WriteSettings())
+	env.wr(env.tc.fr.WriteSettingsAck())
+	step("preface")
+	if w.Failed() || env.harnessErr != "" {
+		return
+	}
+	if mon.connView != mon.cfgConn {
+		return res, fmt.Sprintf("client advertised a connection window of %d, harness expected %d", mon.connView, mon.cfgConn)
+	}
+	if v, ok := env.cliSettings[SettingInitialWindowSize]; !ok || int64(v) != mon.cfgStr {
+		return res, fmt.Sprintf("client advertised INITIAL_WINDOW_SIZE %d (present=%v), harness expected %d", v, ok, mon.cfgStr)
+	}
+
+	checkReads := func(ctx string) {
+		for _, r := range env.reqs {
+			s := mon.streams[r.sid.Load()]
+			if s == nil {
+				continue
+			}
+			got := r.readBuf
+			if !mode.enforce {
+				continue
+			}
+			if len(got) > s.accepted {
+				w.Failf(P+"delivery/more-than-in-window-bytes-delivered", "%s: stream %d application read %d bytes but only %d were sent inside the advertised windows", ctx, s.id, len(got), s.accepted)
+				continue
+			}
+			if !bytes.Equal(got, c08srvPattern(0, len(got))) {
+				w.Failf(P+"delivery/bytes-out-of-order-or-corrupt", "%s: stream %d application read bytes that are not the prefix of what was sent", ctx, s.id)
+			}
+		}
+	}
+
+	quiescent := func(ctx string) {
+		checkReads(ctx)
+		if env.connClosed || !mode.leak || mon.excessConn {
+			return
+		}
+		snap := env.tc.cc.C09cliSnapshot()
+		if snap.Closed {
+			return
+		}
+		if int64(snap.StreamRecvWin) != mon.cfgStr {
+			env.herr("configured stream window %d differs from the harness's %d", snap.StreamRecvWin, mon.cfgStr)
+			return
+		}
+		var buffered int64
+		openBodies := 0
+		for _, r := range env.reqs {
+			if r.busy.Load() && !r.rtDone.Load() {
+				continue // still inside RoundTrip: r.resp is not published yet
+			}
+			if r.resp == nil || r.closed {
+				continue
+			}
+			if n, ok := C09cliBodyBuffered(r.resp.Body); ok {
+				buffered += int64(n)
+				if n > 0 {
+					openBodies++
+				}
+			}
+		}
+		total := int64(snap.ConnInAvail) + int64(snap.ConnInUnsent) + buffered
+		if total != mon.cfgConn {
+			kind := "leak"
+			if total > mon.cfgConn {
+				kind = "over-credit"
+			}
+			trigger := "after-" + mon.lastKind
+			for _, s := range mon.streams {
+				if s.overCL && kind == "leak" {
+					// one abstract situation whatever the order of Read and DATA
+					trigger = "past-content-length"
+				}
+			}
+			w.Failf(P+"conn-credit/"+kind+"/"+trigger, "%s: cc.inflow.avail(%d)+unsent(%d)+unread buffered(%d) = %d, configured connection window %d: %d bytes of connection-level credit %s", ctx, snap.ConnInAvail, snap.ConnInUnsent, buffered, total, mon.cfgConn, abs64(total-mon.cfgConn), map[string]string{"leak": "are lost", "over-credit": "were returned twice"}[kind])
+			return
+		}
+		if mon.goaway {
+			return
+		}
+		if int64(snap.ConnInAvail) != mon.connView {
+			kind := "receiver-did-not-account-data"
+			if int64(snap.ConnInAvail) < mon.connView {
+				kind = "receiver-window-below-wire-view"
+			}
+			w.Failf(P+"conn-window/advertised-differs-from-wire/"+kind+"/after-"+mon.lastKind, "%s: cc.inflow.avail=%d but the window advertised on the wire (initial + WINDOW_UPDATEs - DATA) is %d", ctx, snap.ConnInAvail, mon.connView)
+			return
+		}
+		if snap.ConnInUnsent >= InflowMinRefresh && snap.ConnInUnsent >= snap.ConnInAvail {
+			w.Failf(P+"conn-credit/withheld-beyond-batching-rule", "%s: unsent=%d avail=%d", ctx, snap.ConnInUnsent, snap.ConnInAvail)
+		}
+		if openBodies == 0 {
+			gap := mon.cfgConn - mon.connView
+			if gap < 0 || gap >= InflowMinRefresh {
+				w.Failf(P+"conn-window/not-restored-with-no-unread-bodies/after-"+mon.lastKind, "%s: no unread response data, server's view of the connection receive window is %d, configured %d", ctx, mon.connView, mon.cfgConn)
+			}
+		}
+		for _, ss := range snap.Streams {
+			s := mon.streams[ss.ID]
+			if s == nil || s.excess || s.irregular {
+				continue
+			}
+			if !ss.PastHeaders || ss.ReadClosed || ss.ReadAborted || ss.Aborted || ss.BufErr {
+				continue
+			}
+			if int64(ss.InAvail) != s.view {
+				w.Failf(P+"stream-window/advertised-differs-from-wire/after-"+mon.lastKind, "%s: stream %d cs.inflow.avail=%d but the window advertised on the wire is %d", ctx, ss.ID, ss.InAvail, s.view)
+			}
+			if tot := int64(ss.InAvail) + int64(ss.InUnsent) + int64(ss.BufLen); tot != mon.cfgStr {
+				kind := "leak"
+				if tot > mon.cfgStr {
+					kind = "over-credit"
+				}
+				w.Failf(P+"stream-credit/"+kind+"/after-"+mon.lastKind, "%s: open stream %d: avail(%d)+unsent(%d)+buffered(%d)=%d, configured stream window %d", ctx, ss.ID, ss.InAvail, ss.InUnsent, ss.BufLen, tot, mon.cfgStr)
+			}
+		}
+	}
+
+	for i, es := range cs.Evs {
+		ev, err := c08srvParse(es)
+		if err != nil {
+			return res, err.Error()
+		}
+		if env.connClosed {
+			break
+		}
+		ctx := fmt.Sprintf("event %d %s", i, es)
+		id := uint32(ev.arg(0))
+		s := mon.streams[id]
+		r := env.reqByStream(id)
+		applied := true
+		kind := ev.K
+		var expectFC *c10cStream
+		expectFCConn := false
+		var sentInWindow *c10cStream
+		switch ev.K {
+		case "REQ":
+			if len(env.reqs) >= 2 || mon.goaway {
+				applied = false
+				break
+			}
+			env.start(ev.arg(0) == 1)
+		case "RESP":
+			if s == nil || s.respSent || s.srvRST || s.cliRST {
+				applied = false
+				break
+			}
+			s.respSent, s.cl, s.respEnd = true, ev.arg(1), ev.arg(2) != 0
+			var kv []string
+			if s.cl >= 0 {
+				kv = []string{"content-length", fmt.Sprint(s.cl)}
+			}
+			env.respHeaders(id, s.respEnd, kv...)
+		case "D", "DR":
+			if s == nil {
+				applied = false
+				break
+			}
+			ln, pad, end := ev.arg(1), ev.arg(2), ev.arg(3) != 0
+			if ev.K == "DR" {
+				if !s.srvOpen() {
+					applied = false
+					break
+				}
+				ln, pad, end = c10RelLen(s.view, mon.connView, true, ev.arg(1)), 0, ev.arg(2) != 0
+				if ln < 0 || ln > 16384 {
+					applied = false
+					break
+				}
+			}
+			fl := c10FlowLen(ln, pad)
+			inWin := fl <= mon.connView && (!s.srvOpen() || fl <= s.view)
+			if !inWin && (!mode.enforce || !s.srvOpen()) {
+				applied = false
+				break
+			}
+			switch {
+			case !inWin:
+				kind = "D-beyond-window"
+			case s.cliRST:
+				kind = "D-after-client-reset"
+			case s.srvRST:
+				kind = "D-after-server-reset"
+			case !s.respSent:
+				kind = "D-before-HEADERS"
+			case s.respEnd:
+				kind = "D-after-END_STREAM"
+			case s.cancelled:
+				kind = "D-after-cancel"
+			case r != nil && r.closed:
+				kind = "D-after-body-close"
+			case s.cl >= 0 && int64(s.sent)+ln > s.cl:
+				kind = "D-past-content-length"
+			case pad > 0:
+				kind = "D-padded"
+			}
+			res.refundPaths[kind] = true
+			data := c08srvPattern(s.sent, int(ln))
+			if !inWin {
+				res.excessSent = true
+				s.excess = true
+				if fl > mon.connView {
+					mon.excessConn = true
+					expectFCConn = true
+				}
+				expectFC = s
+			} else if s.srvOpen() && !mon.goaway {
+				sentInWindow = s
+				if s.regular && !(r != nil && r.closed) && !s.cancelled {
+					s.accepted += int(ln)
+				}
+				if s.cl >= 0 && int64(s.sent)+ln > s.cl {
+					s.overCL = true
+				}
+			} else {
+				s.regular = false
+			}
+			s.sent += int(ln)
+			mon.connView -= fl
+			if s.srvOpen() {
+				s.view -= fl
+			} else {
+				s.irregular = true
+			}
+			res.dataSent++
+			if pad > 0 {
+				env.wr(env.tc.fr.WriteDataPadded(id, end, data, make([]byte, pad)))
+			} else {
+				env.wr(env.tc.fr.WriteData(id, end, data))
+			}
+			if end && s.srvOpen() {
+				s.respEnd = true
+			}
+		case "R", "C":
+			if s == nil || r == nil || !r.idle() || r.resp == nil || r.closed {
+				applied = false
+				break
+			}
+			if ev.K == "R" {
+				n := int(ev.arg(1))
+				if s.overCL {
+					kind = "R-past-content-length"
+				} else if s.cliRST || s.srvRST || s.cancelled {
+					kind = "R-after-reset"
+				}
+				env.do(r, func() {
+					buf := make([]byte, n)
+					k, err := r.resp.Body.Read(buf)
+					r.readBuf = append(r.readBuf, buf[:k]...)
+					r.readErr = err
+				})
+			} else {
+				r.closed = true
+				if s.overCL {
+					kind = "C-past-content-length"
+				}
+				env.do(r, func() { r.resp.Body.Close() })
+			}
+		case "CANCEL":
+			if s == nil || r == nil || s.cancelled || r.closed {
+				applied = false
+				break
+			}
+			s.cancelled = true
+			r.cancel()
+			synctest.Wait()
+		case "RST":
+			if s == nil || s.srvRST || s.cliRST {
+				applied = false
+				break
+			}
+			s.srvRST = true
+			env.wr(env.tc.fr.WriteRSTStream(id, ErrCodeCancel))
+		default:
+			return res, "unknown event " + es
+		}
+		if !applied {
+			res.skipped++
+			continue
+		}
+		res.applied++
+		mon.lastKind = kind
+		step(ctx)
+		if env.harnessErr != "" {
+			return
+		}
+		if mode.enforce {
+			if expectFC != nil {
+				ok := (expectFC.cliRST && expectFC.cliRSTCode == ErrCodeFlowControl) || (mon.goaway && mon.goawayCode == ErrCodeFlowControl)
+				if !ok {
+					// The Transport fails the whole connection with the error; its
+					// GOAWAY frame is written but not flushed before the close.
+					if rerr, done := env.tc.cc.C09cliReaderErr(); done {
+						if ce, isCE := rerr.(ConnectionError); isCE && ErrCode(ce) == ErrCodeFlowControl {
+							ok = true
+							res.fcErrSeen = true
+						}
+					}
+				}
+				if !ok {
+					which := "stream"
+					if expectFCConn {
+						which = "connection"
+					}
+					w.Failf(P+"enforce/no-flow-control-error/beyond-"+which+"-window", "%s: DATA beyond the advertised %s window was not answered with FLOW_CONTROL_ERROR (stream reset=%v code=%v, goaway=%v code=%v)", ctx, which, expectFC.cliRST, expectFC.cliRSTCode, mon.goaway, mon.goawayCode)
+				}
+			}
+			if sentInWindow != nil {
+				if (sentInWindow.cliRST && sentInWindow.cliRSTCode == ErrCodeFlowControl) || (mon.goaway && mon.goawayCode == ErrCodeFlowControl) {
+					w.Failf(P+"enforce/in-window-data-rejected/after-"+mon.lastKind, "%s: DATA inside both advertised windows was answered with FLOW_CONTROL_ERROR", ctx)
+				}
+			}
+		}
+		if w.Failed() {
+			return
+		}
+		quiescent(ctx)
+		if w.Failed() || env.harnessErr != "" {
+			return
+		}
+		if expectFC != nil {
+			break
+		}
+	}
+
+	if mode.enforce {
+		for _, r := range env.reqs {
+			s := mon.streams[r.sid.Load()]
+			if s == nil || !r.idle() || r.resp == nil || r.closed {
+				continue
+			}
+			for round := 0; round < 4 && r.idle(); round++ {
+				remaining := s.accepted - len(r.readBuf)
+				probe := remaining
+				if probe <= 0 {
+					if !(s.excess || mon.excessConn || s.respEnd || s.cliRST || s.srvRST) {
+						break
+					}
+					probe = 64
+				}
+				before := len(r.readBuf)
+				r.readErr = nil
+				env.do(r, func() {
+					buf := make([]byte, probe)
+					k, err := r.resp.Body.Read(buf)
+					r.readBuf = append(r.readBuf, buf[:k]...)
+					r.readErr = err
+				})
+				step("final drain")
+				if len(r.readBuf) == before {
+					break
+				}
+			}
+			if env.harnessErr != "" {
+				return
+			}
+			checkReads("final drain")
+			if w.Failed() {
+				return
+			}
+			if r.idle() && !s.overCL && !s.cliRST && !s.srvRST && !s.cancelled && !s.excess && !mon.excessConn && !mon.goaway && !env.connClosed {
+				if len(r.readBuf) < s.accepted {
+					w.Failf(P+"delivery/in-window-bytes-not-delivered", "final drain: stream %d: %d bytes were sent inside the advertised windows but the application could read only %d (last error %v)", s.id, s.accepted, len(r.readBuf), r.readErr)
+				}
+			}
+		}
+	}
+	for _, r := range env.reqs {
+		res.bytesDelivered += len(r.readBuf)
+	}
+	_ = io.EOF
+	return
+}
+
+func c10cliCheck(c *vx.Ctx, mode c10sMode) func(w *vx.W, cs c09cliCase) {
+	return func(w *vx.W, cs c09cliCase) {
+		var res c10sResult
+		c08srvBubble(c, "case", func(t testing.TB) string {
+			var herr string
+			res, herr = c10cliRunCase(w, t, cs, mode)
+			return herr
+		})
+		if res.dataSent > 0 {
+			w.Nontrivial()
+		}
+		for k := range res.refundPaths {
+			w.Outcome("cli:" + k)
+		}
+		switch {
+		case res.excessSent && res.fcErrSeen:
+			w.Outcome("cli:excess-rejected")
+		case res.wuSeen > 1:
+			w.Outcome("cli:window-update-seen")
+		case res.bytesDelivered > 0:
+			w.Outcome("cli:bytes-delivered")
+		}
+		if res.skipped > 0 {
+			w.Outcome("cli:model-real-disagreement-skipped-event")
+		}
+	}
+}
+
+// c10cliAlphabet builds the client-side event menu (simplest first).
+// resp entries are (content-length, END_STREAM); data entries (len, pad, END_STREAM).
+func c10cliAlphabet(reqKinds []int64, resp [][2]int64, data [][3]int64, reads []int64, extras []string, rel []int64) []c08srvEv {
+	var a []c08srvEv
+	for _, k := range reqKinds {
+		a = append(a, c08srvEv{K: "REQ", A: []int64{k}})
+	}
+	ids := []int64{1, 3}
+	for _, id := range ids {
+		for _, r := range resp {
+			a = append(a, c08srvEv{K: "RESP", A: []int64{id, r[0], r[1]}})
+		}
+	}
+	for _, id := range ids {
+		for _, d := range data {
+			a = append(a, c08srvEv{K: "D", A: []int64{id, d[0], d[1], d[2]}})
+		}
+		for _, r := range rel {
+			a = append(a, c08srvEv{K: "DR", A: []int64{id, r, 0}})
+		}
+	}
+	for _, id := range ids {
+		for _, n := range reads {
+			a = append(a, c08srvEv{K: "R", A: []int64{id, n}})
+		}
+	}
+	for _, k := range extras {
+		for _, id := range ids {
+			a = append(a, c08srvEv{K: k, A: []int64{id}})
+		}
+	}
+	return a
+}
+
+type c10cliPart struct {
+	name  string
+	cfg   c09cliCfg
+	seed  []string
+	alpha []c08srvEv
+	depth int
+}
+
+func c10cliRunPartList(c *vx.Ctx, mode c10sMode, parts []c10cliPart) {
+	for _, p := range parts {
+		p := p
+		completed := 0
+		vx.Enumerate(c, p.name, vx.Opts{Serial: true},
+			func(yield func(c09cliCase) bool) {
+				c10cGen(p.cfg, p.seed, p.alpha, p.depth, mode.enforce, func(d int) { completed = d }, yield)
+			},
+			c10cliCheck(c, mode))
+		if completed < p.depth && !c.Replaying() {
+			c.Cap(fmt.Sprintf("part %s: depth %d of %d completed", p.name, completed, p.depth))
+		}
+		c.Note(p.name+".depth", p.depth)
+	}
+}
+
+// c10cliRunParts is the client part of C10.
+func c10cliRunParts(c *vx.Ctx) {
+	c.Rule("EV, client part: for each part (configured stream window 8 or default x seed prefix) every event sequence of depth 1..D after the seed over {REQ (GET, or POST whose body stays open so that the stream stays registered) (<=2 requests), response HEADERS(content-length none|5|10, END_STREAM?), DATA(stream, len, padding, END_STREAM) inside the server's view of both windows (also before HEADERS, after END_STREAM, on reset/cancelled/closed streams, beyond Content-Length), application Read(n), Body.Close, request cancel, server RST_STREAM}; each sequence runs on a fresh real Transport ClientConn in its own synctest bubble; after every event at quiescence: white-box cc.inflow.avail+unsent+sum(unread bytes of open response bodies) == configured connection window, the same per open stream, advertised window == wire view, every WINDOW_UPDATE keeps the server's view <= configured and <= 2^31-1, and with no unread response data the server's view is within inflowMinRefresh of the configured window. non-trivial = at least one DATA frame was sent")
+	small := c09cliCfg{StrWin: 8}
+	large := c09cliCfg{}
+	respQ := [][2]int64{{-1, 0}, {5, 0}}
+	respT := [][2]int64{{-1, 0}, {5, 0}, {10, 0}, {-1, 1}}
+	dSmallQ := [][3]int64{{1, 0, 0}, {4, 0, 0}, {0, 3, 0}, {4, 3, 0}, {4, 0, 1}, {0, 0, 1}}
+	dSmallT := [][3]int64{{0, 0, 0}, {1, 0, 0}, {4, 0, 0}, {8, 0, 0}, {0, 3, 0}, {1, 3, 0}, {4, 3, 0}, {4, 0, 1}, {0, 0, 1}, {1, 3, 1}}
+	dLargeQ := [][3]int64{{4, 0, 0}, {10, 0, 0}, {16384, 0, 0}, {4, 3, 0}, {10, 0, 1}}
+	dLargeT := [][3]int64{{0, 0, 0}, {4, 0, 0}, {10, 0, 0}, {16384, 0, 0}, {4, 3, 0}, {16000, 3, 0}, {10, 0, 1}, {0, 0, 1}}
+	ext := []string{"C", "CANCEL", "RST"}
+	seedOpen := []string{"REQ(0)", "RESP(1,-1,0)", "D(1,4,0,0)"}
+	seedCL := []string{"REQ(0)", "RESP(1,5,0)"}
+	seedPost := []string{"REQ(1)", "RESP(1,-1,0)", "D(1,4,0,0)"}
+	seedTwo := []string{"REQ(0)", "REQ(1)", "RESP(1,-1,0)", "RESP(3,5,0)", "D(1,4,0,0)"}
+	seedBig := []string{"REQ(0)", "RESP(1,-1,0)", "D(1,16384,0,0)", "D(1,16384,0,0)", "R(1,20000)"}
+	var parts []c10cliPart
+	if c.Quick() {
+		parts = []c10cliPart{
+			{"cli/win8/empty", small, nil, c10cliAlphabet([]int64{0, 1}, respQ, dSmallQ, []int64{1, 100}, ext, nil), 4},
+			{"cli/win8/buffered", small, seedOpen, c10cliAlphabet([]int64{0}, respQ, dSmallQ, []int64{1, 100}, ext, nil), 3},
+			{"cli/default/content-length", large, seedCL, c10cliAlphabet(nil, nil, dLargeQ, []int64{1, 100}, ext, nil), 4},
+			{"cli/default/post-open-body", large, seedPost, c10cliAlphabet(nil, nil, dLargeQ, []int64{1, 100}, ext, nil), 3},
+			{"cli/default/two-requests", large, seedTwo, c10cliAlphabet(nil, nil, dLargeQ, []int64{100}, ext, nil), 3},
+			{"cli/default/big-frames", large, seedBig, c10cliAlphabet(nil, nil, dLargeQ, []int64{100, 20000}, ext, nil), 3},
+		}
+	} else {
+		parts = []c10cliPart{
+			{"cli/win8/empty", small, nil, c10cliAlphabet([]int64{0, 1}, respT, dSmallT, []int64{1, 100}, ext, nil), 5},
+			{"cli/win8/buffered", small, seedOpen, c10cliAlphabet([]int64{0, 1}, respT, dSmallT, []int64{1, 100}, ext, nil), 4},
+			{"cli/default/empty", large, nil, c10cliAlphabet([]int64{0, 1}, respT, dLargeT, []int64{1, 100, 20000}, ext, nil), 4},
+			{"cli/default/content-length", large, seedCL, c10cliAlphabet([]int64{0}, respT, dLargeT, []int64{1, 100}, ext, nil), 4},
+			{"cli/default/post-open-body", large, seedPost, c10cliAlphabet([]int64{0}, respT, dLargeT, []int64{1, 100}, ext, nil), 4},
+			{"cli/default/two-requests", large, seedTwo, c10cliAlphabet(nil, nil, dLargeT, []int64{1, 100}, ext, nil), 4},
+			{"cli/default/big-frames", large, seedBig, c10cliAlphabet([]int64{0}, respT, dLargeT, []int64{100, 20000}, ext, nil), 4},
+		}
+	}
+	c10cliRunPartList(c, c10sMode{id: "C10", leak: true}, parts)
+}
